@@ -4,6 +4,7 @@ Gen/ServiceTbl.lean:
   SERVICE_OWNER_IS_EVALUATOR   ServiceDecorator.start registers under `self.dm.ast_ctx.name` (the evaluator: 'file.x.func';
                                before the fix) or under `self.dm.ast_ctx.global_ctx.get_name()` (the global context)
   LEGACY_SKIPS_DUPLICATE       EvalFunc.trigger_init skips a service name that is already in `self.trigger_service`
+  LEGACY_TRACKS_AFTER_REGISTER `self.trigger_service.add(srv_name)` comes after `Function.service_register(...)` in that loop
 """
 import ast
 
@@ -43,10 +44,14 @@ def gen_service_tbl():
                           and ast.unparse(n.test) == "srv_name in self.trigger_service"
                           and any(isinstance(b, ast.Continue) for b in n.body)]
                 skip = len(guards) == 1
+                # the name is recorded in trigger_service only AFTER a successful service_register (a refused name is
+                # not remembered, so the death of the refused function removes nothing)
+                after = regs[0].lineno < adds[0].lineno
     if skip is None:
         broken.append("eval.EvalFunc.trigger_init: `for srv_name in ...` registration loop shape")
     else:
         body.append(f"def LEGACY_SKIPS_DUPLICATE : Bool := {'true' if skip else 'false'}")
+        body.append(f"def LEGACY_TRACKS_AFTER_REGISTER : Bool := {'true' if after else 'false'}")
 
     # GlobalContext.start(): are the delayed managers started in definition order (a list `dms_order`) or by iterating
     # the set `dms_delay_start`?
